@@ -117,7 +117,41 @@ def extra_C14(tier, seed, scratch, cfg, out):
                 im.close()
         if hits:
             break
-    out.extra["C14"] = {"reads_with_image_compared_before_after": reads}
+    # reads on reopened crash-cut states (a torn long-stem node is a reachable on-disk state, C18) must not write either
+    cut_reads = 0
+    if not hits:
+        from .impl import FULL_LOG
+        for i in range(3 if tier == "quick" else 30):
+            r = random.Random(seed * 7907 + 14500 + i)
+            prof = {"g1": 0.2, "read_rate": 0.0, "w": {"reopen": 0, "clear": 0}}
+            im = Impl(scratch)
+            try:
+                ses = Session(im, r, prof, cfg=cfg)
+                ses.run(5)
+                nlog = len(FULL_LOG)
+                for k in sorted(r.sample(range(nlog + 1), min(nlog + 1, 25))):
+                    if im.exec("cut %d 0" % k)[0] != "ok":
+                        continue
+                    for q in CUT_OBSERVERS + ["? counts", "? metrics"]:
+                        before = im.images()
+                        ans, nw, _ = im.exec(q)
+                        after = im.images()
+                        cut_reads += 1
+                        if before != after or nw:
+                            hits.append({"kind": "query-modifies-store-after-cut", "lines": ses.lines, "cut": [k, 0],
+                                         "finding": {"line": q, "answer": ans[:200], "storage_writes": nw,
+                                                     "reason": "a read-only request changed the stored bytes of an index reopened after a crash cut"}})
+                            break
+                    im.exec("uncut")
+                    if hits:
+                        break
+            finally:
+                if im.t is not None:
+                    im._uncut()
+                im.close()
+            if hits:
+                break
+    out.extra["C14"] = {"reads_with_image_compared_before_after": reads, "reads_on_crash_cut_states": cut_reads}
     return hits[:1]
 
 
@@ -444,8 +478,22 @@ def extra_C16(tier, seed, scratch, cfg, out):
                         st["probes"].append(ses.do("? network %s %s 0" % (o, a)))
             probe()
             failed = None
+            # schedules: uniformly random, or "one request for k steps, another to completion, then the rest"
+            block = r.random() < 0.5
+            order = list(live)
+            r.shuffle(order)
+            plan = []
+            if block:
+                plan = [order[0]] * r.randint(1, 6) + [order[1 % len(order)]] * 200
             while any(st["answer"] is None for st in live.values()):
-                cid = r.choice([c for c, st in live.items() if st["answer"] is None])
+                alive = [c for c, st in live.items() if st["answer"] is None]
+                cid = None
+                while plan and cid is None:
+                    c = plan.pop(0)
+                    if c in alive:
+                        cid = c
+                if cid is None:
+                    cid = r.choice(alive)
                 ans = ses.do("co step %d" % cid)
                 nsteps += 1
                 if ans.startswith("done "):
